@@ -1,5 +1,6 @@
 import Ekit.Props.C03
 import Ekit.Props.C03Rev
+import Ekit.Props.C03HM
 open Ekit.HashMap
 #print axioms c03_step_refines
 #print axioms c03_empty_refines
@@ -49,3 +50,9 @@ open Ekit.HashMap
 #print axioms c03_builtin_get_after_history
 #print axioms c03_mapset_exist_after_history
 #print axioms c03_pool_choice_unobservable
+-- the regenerated hash map (Ekit/Props/C03HM.lean): the MiniGo interpreter running the translated mapx/hashmap.go
+#print axioms Ekit.MiniGo.HM.Refine.c03_hm_new
+#print axioms Ekit.MiniGo.HM.Refine.c03_hm_get_refines_model
+#print axioms Ekit.MiniGo.HM.Refine.c03_hm_get_refines_spec
+#print axioms Ekit.MiniGo.HM.Refine.c03_hm_formatting_clean
+#print axioms Ekit.MiniGo.HM.Refine.c03_hm_factory_clean
